@@ -225,7 +225,7 @@ pub fn generate(seed: u64) -> Scenario {
             .map(|_| (s(&mut r, &["node", "jdk", "", "with space", "ünï"]), if r.bool() { gen_table(&mut r, 0) } else { Vec::new() }))
             .collect(),
         store: r.bool().then(|| gen_table(&mut r, 0)),
-        bad_store: if r.chance(1, 12) { 1 + r.below(2) as u8 } else { 0 },
+        bad_store: if r.chance(1, 10) { 1 + r.below(4) as u8 } else { 0 },
         bp_dir_style: r.below(3) as u8,
         layers_via_symlink: r.chance(1, 4),
         read_fault: r.chance(1, 6).then(|| r.next_u64()),
@@ -407,6 +407,9 @@ pub fn prepare_world(s: &Scenario, root: &Path) -> Result<PreparedWorld, String>
     match s.bad_store {
         1 => std::fs::write(d.layers.join("store.toml"), b"[metadata]\nk = \"\xff\xfe\"\n").map_err(io)?,
         2 => std::fs::create_dir(d.layers.join("store.toml")).map_err(io)?,
+        // well-formed TOML holding something the store type has no place for
+        3 => std::fs::write(d.layers.join("store.toml"), "schema = 2\n\n[metadata]\nk = \"v\"\n").map_err(io)?,
+        4 => std::fs::write(d.layers.join("store.toml"), "[metadata]\nk = \"v\"\n\n[cache]\nhit = true\n").map_err(io)?,
         _ => {
             if let Some(st) = &s.store {
                 std::fs::write(d.layers.join("store.toml"), format!("[metadata]\n{}", body(st))).map_err(io)?;
@@ -543,7 +546,7 @@ pub fn judge(s: &Scenario, x: &Executed) -> Vec<String> {
         let why = if x.fault_fired {
             format!("reading an input the platform supplied failed ({} -> EIO)", x.fault_call)
         } else if s.build_phase && s.bad_store != 0 {
-            "store.toml exists but cannot be read as UTF-8 TOML".to_string()
+            "store.toml exists but cannot be read as the store (not UTF-8, a directory, or holding keys the store has no place for)".to_string()
         } else {
             "a platform env file is not valid UTF-8".to_string()
         };
